@@ -131,6 +131,12 @@ fn run_edit(init: &[(usize, usize)], ops: &[LOp]) -> (Vec<Viol>, String) {
         if p.get(n) != want {
             out.push(viol("get-first", ctx(&format!("get({}) = {:?}, model {:?}", n, p.get(n), want))));
         }
+        // near misses of a name are other names
+        for alt in [n.to_lowercase(), format!("{}x", n), n[..n.len() - 1].to_string()] {
+            if !alt.is_empty() && !NAMES8.contains(&alt.as_str()) && p.get(&alt).is_some() {
+                out.push(viol("get-first", ctx(&format!("get({:?}) answers although no field has that name", alt))));
+            }
+        }
     }
     // the edited paragraph prints to text that reads back equal (an empty paragraph prints nothing)
     if !m.is_empty() {
